@@ -46,8 +46,11 @@ reg("Attack_rate_discrete_from_graph", True, ALL, None, scalar=True, p=True)
 reg("Attack_rate_cts_time_from_graph", True, ALL, None, scalar=True)
 
 
-def graph(rng, small=False):
-    kind = rng.choice(["regular", "star", "gnp", "isolated", "components", "path", "tree"])
+KINDS = ["regular", "star", "gnp", "isolated", "components", "path", "tree"]
+
+
+def graph(rng, small=False, kind=None):
+    kind = kind or rng.choice(KINDS)
     n = rng.randint(4, 8) if small else rng.randint(6, 24)
     seed = rng.randrange(10 ** 6)
     if kind == "regular":
